@@ -219,7 +219,17 @@ def _d1_d2(chk, fb):
         # compounds forward to components before the rebuild
         comp_fields = [fl for fl in fb.classes[cls]["fields"] if "DiscreteDistributionInterface" in fl["ty"]]
         for fl in comp_fields:
-            fw = [n for n in f.calls() if n["callee"]["name"] in ("matchParametersValues", "setParametersValues") and "obj" in n and e1._root_decl(f.obj(n)) == ("f", fl["qname"], fl["name"])]
+            rfv = e1.rangefor_vars(f)
+
+            def root_of(o):
+                r = e1._root_decl(o)
+                if r and r[0] == "v":
+                    # the element variable of a range-for over the member
+                    for x in walk(o):
+                        if x["k"] == "DeclRefExpr" and x["decl"]["id"] in rfv:
+                            return e1._root_decl(rfv[x["decl"]["id"]])
+                return r
+            fw = [n for n in f.calls() if n["callee"]["name"] in ("matchParametersValues", "setParametersValues") and "obj" in n and root_of(f.obj(n)) == ("f", fl["qname"], fl["name"])]
             if fw and all(e1.before_in_function(cfg, w, r) for w in fw for r in rb if r["k"] != "BinaryOperator"):
                 # a vector of components must be covered by a loop over its whole size
                 if "vector" in fl["ty"]:
